@@ -1,9 +1,41 @@
 PROPERTY = "C19"
 LEVEL = "model_checking"
-FUNCTIONS = ["frag_table_copy", "frag_table_destroy"]
-TRUSTED = []
-ASSUMPTIONS = []
-EXPLANATION = ""
+FUNCTIONS = [
+    "sqfs_copy", "sqfs_grab", "sqfs_drop",
+    "array_init_copy", "array_init", "array_cleanup",
+    "frag_table_copy", "frag_table_destroy", "id_table_copy", "id_table_destroy",
+    "meta_reader_copy", "meta_reader_destroy", "data_reader_copy", "data_reader_destroy",
+    "dir_reader_copy", "dir_reader_destroy", "xattr_reader_copy", "xattr_reader_destroy",
+    "xattr_writer_copy", "xattr_writer_destroy", "block_compare", "stdio_copy", "stdio_destroy",
+    "gzip_create_copy", "gzip_destroy", "xz_create_copy", "xz_destroy", "lz4_create_copy",
+    "lz4_destroy", "zstd_create_copy", "zstd_destroy", "lzma_create_copy", "lzma_destroy",
+    "rbtree_copy", "copy_node", "rbtree_cleanup", "destroy_nodes_dfs", "rbtree_lookup",
+    "str_table_copy", "str_table_cleanup", "hash_table_clone", "hash_table_next_entry",
+    "hash_table_destroy",
+]
+TRUSTED = [
+    "malloc/calloc/free: NULL or a fresh object of the requested size (CBMC memory model); every allocation of the code under test may fail, the choice is on the tape (c19_env.h)",
+    "abstract sqfs object contract for sub-objects a composite copies or shares (c19_env.h): copy = NULL or fresh object with the same hooks, destroy frees a live object; each concrete type is verified against the same contract in its own harness",
+    "alloc_flex/alloc_array (lib/util/src/alloc.c): NULL or a fresh zeroed object of base+item*n bytes (c19_alloc.h; real body used nowhere in C19)",
+    "mem_pool_create/allocate/destroy (mmap pool, c19_mempool.h) for the default rbtree configuration",
+    "zlib deflateInit2_/inflateInit_/deflateEnd/inflateEnd, libzstd ZSTD_createCCtx/ZSTD_freeCCtx: state attached on success, none on failure, End/free release a live state of the matching kind",
+    "sqfs_native_file_duplicate / sqfs_native_file_close (lib/sqfs/src/io/unix.c): ghost descriptor table",
+    "strlen on strings the harness built: ghost length (str_table.c, stdio_file.c); memcmp in block_compare: readable operands, arbitrary result (xattr_writer.c)",
+    "str_table_copy/str_table_cleanup as contract inside xattr_writer.c, hash_table_clone as contract inside str_table.c - both contracts are verified against the real bodies by str_table.c and ht_clone.c",
+]
+ASSUMPTIONS = [
+    "'the copy answers every subsequent operation exactly as the original' is reduced to state equality (every scalar field, every owned byte by witness index, shape of owned trees/lists) plus C10's result that answers are functions of reader state; no operation sequence is executed on the copies",
+    "heap shapes are concrete and bounded: arrays <= 4 elements, rbtree <= 3 nodes (all 9 shapes in the thorough tier), str_table 1..2 strings of 7 bytes in a 5-slot hash table (the empty table runs cbmc out of memory), xattr writer 0..1 recorded blocks (2 blocks exceed 8 GB), data reader block size 32, file name length <= 12, dir reader cache <= 2 nodes; field values and buffer bytes are symbolic",
+    "frame conditions are checked by snapshot comparison in the harness (every field and a witness byte of every buffer of the original before/after); only array_init_copy is additionally checked with a dfcc assigns clause",
+    "dir_reader and xattr_writer use the -DNO_CUSTOM_ALLOC rbtree configuration; the pool configuration differs only inside rbtree_copy and is covered by the rbtree harness",
+    "interleavings of operations on original and copy by different threads are not modelled (sequential independence only)",
+    "Windows code paths are preprocessed away",
+]
+EXPLANATION = ("one harness per copy/destroy hook pair: the original is built on the heap with a concrete shape and "
+               "symbolic contents, sqfs_copy runs with every allocation allowed to fail (tape-driven), then header / fresh / "
+               "frame / independent obligations are asserted, both release orders are executed under pointer and leak checks "
+               "with a ghost live-allocation counter; flat objects (sqfs_copy/grab/drop, meta reader, compressors, "
+               "hash_table_clone) are loop-free and fully symbolic, hence proved")
 
 LEAK = ["--memory-leak-check"]
 
@@ -36,14 +68,16 @@ HARNESSES = [
     dict(name="meta_reader", file="meta_reader.c", label="proved",
          fp={"destroy": ["meta_reader_destroy", "c19_obj_destroy"],
              "copy": ["meta_reader_copy"], "read_at": "c19_unreachable_read_at", "do_block": "c19_unreachable_do_block"},
-         flags=LEAK, timeout=300, unwind=2, weight=5),
-    dict(name="data_reader", file="data_reader.c", label="bounded(block_size<=32)",
+         flags=LEAK, timeout=900, unwind=2, weight=10),
+    dict(name="data_reader", file="data_reader.c", label="bounded(block_size<=32)", weight=6,
          fp={"destroy": ["data_reader_destroy", "c19_obj_destroy"],
              "copy": ["data_reader_copy", "c19_obj_copy"],
              "read_at": "c19_unreachable_read_at", "do_block": "c19_unreachable_do_block"},
          flags=LEAK, timeout=200, unwind=2,
          cases=[dict(id="db%d_fb%d" % (d, f), defines={"HAVE_DB": d, "HAVE_FB": f}, tier="quick")
-                for d in (0, 1) for f in (0, 1)]),
+                for d in (0, 1) for f in (0, 1)] +
+               [dict(id="bs4096_db1_fb1", tier="thorough", label="bounded(block_size<=4096)", timeout=1500,
+                     defines={"BS": 4096, "HAVE_DB": 1, "HAVE_FB": 1, "DBS": 4096, "FBS": 1000})]),
     dict(name="xattr_reader", file="xattr_reader.c", label="bounded(id_blocks<=4)",
          fp={"destroy": ["xattr_reader_destroy", "c19_obj_destroy"],
              "copy": ["xattr_reader_copy", "c19_obj_copy"],
@@ -54,7 +88,7 @@ HARNESSES = [
                 for (k, i, nb, t) in ((1, 1, 2, "quick"), (0, 0, 0, "quick"), (1, 1, 0, "quick"),
                                       (1, 0, 1, "quick"), (0, 1, 1, "thorough"),
                                       (1, 1, 4, "thorough"), (1, 1, 1, "thorough"))]),
-    dict(name="rbtree", file="rbtree.c", label="bounded(nodes<=3)",
+    dict(name="rbtree", file="rbtree.c", label="bounded(nodes<=3)", weight=4,
          fp={"key_compare": "cmp_stub"},
          flags=LEAK, timeout=200, unwind=5,
          cases=[dict(id="shape%d_%s" % (sh, cfg), tier=t,
@@ -62,7 +96,7 @@ HARNESSES = [
                 for cfg in ("pool", "calloc")
                 for (sh, t) in ((0, "quick"), (1, "quick"), (2, "quick"), (3, "thorough"), (4, "quick"),
                                 (5, "thorough"), (6, "thorough"), (7, "thorough"), (8, "thorough"))]),
-    dict(name="str_table", file="str_table.c", label="bounded(strings<=2,len=7)",
+    dict(name="str_table", file="str_table.c", label="bounded(strings<=2,len=7)", weight=7,
          fp={"key_equals_function": "eq_stub", "key_hash_function": "hash_stub",
              "delete_function": "del_stub"},
          flags=LEAK, timeout=300, unwind=6,
@@ -91,15 +125,15 @@ HARNESSES = [
          flags=LEAK, timeout=200, unwind=9,
          cases=[dict(id="nl%d" % n, defines={"NL": n}, tier=t)
                 for n, t in ((1, "quick"), (5, "quick"), (12, "thorough"))]),
-    dict(name="dir_reader", file="dir_reader.c", label="bounded(dcache_nodes<=2)",
+    dict(name="dir_reader", file="dir_reader.c", label="bounded(dcache_nodes<=2)", weight=9,
          fp={"destroy": ["dir_reader_destroy", "c19_obj_destroy"],
              "copy": ["dir_reader_copy", "c19_obj_copy"],
              "key_compare": "dcache_key_compare", "*": "c19_unreachable_read_at"},
-         flags=LEAK, timeout=300, unwind=2,
+         flags=LEAK, timeout=1500, unwind=2,
          unwindset=["copy_node:4", "destroy_nodes_dfs:4"] + ["harness.%d:4" % i for i in range(5)],
          cases=[dict(id="dot%d_nn%d" % (d, n), defines={"DOT": d, "NN": n}, tier=t)
-                for d, n, t in ((0, 0, "quick"), (1, 0, "quick"), (1, 1, "thorough"), (1, 2, "thorough"))]),
-    dict(name="xattr_writer", file="xattr_writer.c", label="bounded(blocks<=1,pairs=3)",
+                for d, n, t in ((1, 0, "quick"), (0, 0, "thorough"), (1, 1, "thorough"), (1, 2, "thorough"))]),
+    dict(name="xattr_writer", file="xattr_writer.c", label="bounded(blocks<=1,pairs=3)", weight=6,
          fp={"destroy": "xattr_writer_destroy", "copy": "xattr_writer_copy",
              "key_compare": "block_compare"},
          flags=LEAK, timeout=300, unwind=4,
